@@ -2056,6 +2056,14 @@ def ext_malloc(interp, st, i, args):
     return [(st, PtrVal(o.id, Lin(0), None, None, False))]
 
 
+def ext_new(interp, st, i, args):
+    """operator new never returns null"""
+    n = args[0]
+    size = st.force_u(n) if isinstance(n, IntVal) else None
+    o = st.new_obj('heap', size, 'heap', {'desc': 'heap block allocated at %s' % i.where()})
+    return [(st, PtrVal(o.id, Lin(0), None, None, True))]
+
+
 def ext_free(interp, st, i, args):
     return [(st, None)]
 
@@ -2071,7 +2079,7 @@ DEFAULT_EXTERNALS = {
     '_exit': ext_noreturn, '__cxa_pure_virtual': ext_noreturn,
     '_ZSt9terminatev': ext_noreturn,
     'malloc': ext_malloc, 'free': ext_free,
-    '_Znwm': ext_malloc, '_Znam': ext_malloc, '_ZdlPv': ext_free, '_ZdaPv': ext_free,
+    '_Znwm': ext_new, '_Znam': ext_new, '_ZdlPv': ext_free, '_ZdaPv': ext_free,
     'isdigit': ext_pure, 'isspace': ext_pure, 'isalpha': ext_pure, 'isupper': ext_pure,
     'islower': ext_pure, 'isxdigit': ext_pure, 'isalnum': ext_pure, 'toupper': ext_pure,
     'tolower': ext_pure, 'isprint': ext_pure,
